@@ -1,12 +1,12 @@
-//! E1 codec correspondence harness (DESIGN.md 3.1).
+//! E2 wire correspondence harness (DESIGN.md 3.2): real driver on loopback vs a raw quinn peer.
 //!
-//! e1 gen <suite> --seed N --tier quick|thorough --out DIR
+//! e2 gen <suite> --seed N --tier quick|thorough --out DIR
 //!     generates cases, runs them through the implementation, writes
 //!     DIR/<suite>_<k>.v (Coq cases with observed outcomes), DIR/<suite>_<k>.txt
 //!     (one human-readable line per case) and DIR/<suite>.json (statistics and
 //!     the property-oracle verdicts evaluated on the implementation alone).
-//! e1 replay <f> <args>   re-executes one case: args like "1,2,3;4,5"
-mod io;
+//! e2 replay <f> <args>   re-executes one case: args like "1,2,3;4,5"
+mod net;
 mod rng;
 mod suites;
 
@@ -100,9 +100,16 @@ fn json_escape(s: &str) -> String {
     o
 }
 
-pub fn run_exec(f: u32, args: &Args) -> Args {
+pub async fn run_exec(f: u32, args: &Args) -> Args {
     let a = args.clone();
-    match std::panic::catch_unwind(move || suites::exec(f, &a)) {
+    // every scenario runs in its own task so that a panic is an outcome, not a crash
+    let h = tokio::spawn(async move {
+        match tokio::time::timeout(std::time::Duration::from_secs(40), suites::exec(f, &a)).await {
+            Ok(v) => v,
+            Err(_) => vec![vec![PANIC - 1]],
+        }
+    });
+    match h.await {
         Ok(v) => v,
         Err(_) => vec![vec![PANIC]],
     }
@@ -129,11 +136,16 @@ fn hash_case(f: u32, args: &Args) -> u64 {
 
 fn main() {
     std::panic::set_hook(Box::new(|_| {}));
+    let rt = tokio::runtime::Builder::new_multi_thread().worker_threads(8).enable_all().build().unwrap();
+    rt.block_on(amain());
+}
+
+async fn amain() {
     let argv: Vec<String> = std::env::args().collect();
     if argv.len() >= 4 && argv[1] == "replay" {
         let f: u32 = argv[2].parse().expect("f");
         let args = parse_args(&argv[3]);
-        let out = run_exec(f, &args);
+        let out = run_exec(f, &args).await;
         let orc = suites::oracle(f, &args, &out);
         println!("f={} args={} out={}", f, args_str(&args), args_str(&out));
         println!("coq=({}, {}, {})", f, coq_lists(&args), coq_lists(&out));
@@ -144,7 +156,7 @@ fn main() {
         return;
     }
     if argv.len() < 3 || argv[1] != "gen" {
-        eprintln!("usage: e1 gen <suite> --seed N --tier quick|thorough --out DIR | e1 replay <f> <args>");
+        eprintln!("usage: e2 gen <suite> --seed N --tier quick|thorough --out DIR | e2 replay <f> <args>");
         std::process::exit(2);
     }
     let suite = argv[2].clone();
@@ -178,7 +190,7 @@ fn main() {
     let mut rng = rng::Rng::new(seed.wrapping_mul(0x1000193) ^ hash_case(0, &vec![b2a(suite.as_bytes())]));
     let (corr_module, mut cases) = suites::generate(&suite, &mut rng, thorough);
     // corpus first
-    let corpus_path = format!("{}/../../corpus/e1/{}.txt", env!("CARGO_MANIFEST_DIR"), suite);
+    let corpus_path = format!("{}/../../corpus/e2/{}.txt", env!("CARGO_MANIFEST_DIR"), suite);
     if let Ok(txt) = std::fs::read_to_string(&corpus_path) {
         let mut pre = vec![];
         for line in txt.lines() {
@@ -217,6 +229,7 @@ fn main() {
         vs.push(v);
         ts.push(String::new());
     }
+    let outs = run_all(&cases).await;
     for (idx, c) in cases.iter().enumerate() {
         // each case goes to the currently smallest shard (by text size) so that
         // expensive cases spread evenly over the parallel coqc runs
@@ -235,7 +248,7 @@ fn main() {
                 best
             }
         };
-        let out = run_exec(c.f, &c.args);
+        let out = outs[idx].clone();
         if out.len() == 1 && out[0] == vec![PANIC] {
             panics += 1;
         }
@@ -300,6 +313,29 @@ fn main() {
     let mut fjson = std::fs::File::create(format!("{}/{}.json", out_dir, suite)).unwrap();
     fjson.write_all(j.as_bytes()).unwrap();
     println!("suite={} cases={} shards={} oracle_failures={} panics={}", suite, total, nshards, oracle_fail.len(), panics);
+}
+
+async fn run_all(cases: &[Case]) -> Vec<Args> {
+    let par: usize = std::env::var("E2_PAR").ok().and_then(|v| v.parse().ok()).unwrap_or(10);
+    let sem = std::sync::Arc::new(tokio::sync::Semaphore::new(par));
+    let mut hs = vec![];
+    for c in cases {
+        let (f, args) = (c.f, c.args.clone());
+        let sem = sem.clone();
+        hs.push(tokio::spawn(async move {
+            let _p = sem.acquire_owned().await.unwrap();
+            run_exec(f, &args).await
+        }));
+    }
+    let mut outs = vec![];
+    for h in hs {
+        outs.push(h.await.unwrap_or_else(|_| vec![vec![PANIC]]));
+    }
+    outs
+}
+
+pub fn b2s(s: &str) -> Vec<u64> {
+    s.bytes().map(|b| b as u64).collect()
 }
 
 fn trunc(s: &str) -> String {
